@@ -40,6 +40,9 @@ func runSelftestJobs(e *Engine, specs []JobSpec) (bool, int, string) {
 		ctx, cancel := context.WithTimeout(context.Background(), 60*time.Second)
 		cmd := exec.CommandContext(ctx, b.bin, "-test.run", "^TestVerifReplay$", "-test.timeout", "50s")
 		cmd.Env = append(os.Environ(), "VERIF_VECTOR="+vec)
+		if j.Pkg == "main" {
+			cmd.Env = append(cmd.Env, "VERIF_BORNO_BIN="+bornoBinary())
+		}
 		out, _ := cmd.CombinedOutput()
 		cancel()
 		var native []string
